@@ -13,7 +13,7 @@ PROPS = {
     "C02": dict(
         title="tree constraints (eq/diseq programs)",
         props_module="PvModel.Props.C02",
-        props_extra=["PvModel.Props.C02Program", "PvModel.Props.C02Decide"],
+        props_extra=["PvModel.Props.C02Program", "PvModel.Props.C02Decide", "PvModel.Props.C02Rel"],
         rule="pure tree programs (1-6 atoms ==/!= over <=2 query + <=3 hidden variables, nested conde/fresh, compounds), each run as written and "
              "under random permutations of every conjunction; targets: subsuming pairs, disequalities simplified/violated by later equalities; "
              "observable: canonical answer terms + truth table of the reported constraints over an 8-element universe; non-trivial = an answer "
